@@ -454,3 +454,164 @@ Theorem C06_unset_property_differs :
           Some None).
 Proof. exact unset_property_differs. Qed.
 
+(* ---- database-KNOWN properties (Proofs/CrossFormatKnown.v): the two reflection theorems (BinKnownProps.known_props_roundtrip, XmlKnownProps.xml_roundtrip_known)
+   plugged into the generic cross-format statement.  For every explicitly set, known, non-migrating key (canonical or alias spelling) with a value in
+   agree_scope (declared type; Color3 for a byte-colour property; Int32 for Int64; Float32 for Float64; EnumItem for Enum) both decoded instances hold the
+   SAME canonical key and nan_equiv values, Refs to corresponding instances, equal SharedStrings; the keys of the XML-decoded instance are keys of the
+   binary-decoded one and the converse fails exactly by the class-mate defaults (one-directional: binary_keys_not_in_xml_refuted).  Bundled instance through
+   the existing exhaustive checks.  Where the two sides normalise DIFFERENTLY, by witnesses at the closed forms: a Font with cached face id Some "" (binary
+   returns None) and a rotation equal to a basis up to the sign of a zero (binary returns the table's +0.0) — the recorded C06 value-level findings. *)
+From RbxVerif Require Import XmlKnownProps BinKnownProps CrossFormatKnown.
+Theorem C06_resolve_of_desc :
+  forall (d : db) (c n : bytes) (v : value) (canon ser : pdesc),
+       DbCheck.db_coherent d = true ->
+       find_desc_xml d (S_ c) (S_ n) = Ok (Some (canon, ser)) ->
+       nonmig ser ->
+       resolve_prop d c n v = Ok (RProp (B (pd_name canon)) (B (pd_name ser)) (dtype_vt (pd_type ser)) None).
+Proof. exact resolve_of_desc. Qed.
+
+Theorem C06_normB_norm_known_agree :
+  forall (q : f32 -> N) (rn : N -> N) (o : xoracle) (wt : wire_type) (sty cty : N) (v : value),
+       quant_agree q o ->
+       from_rbx_type sty = Some wt ->
+       agree_scope sty cty v ->
+       forall vx : value, norm_known o ext_norm sty cty v = Ok vx -> nan_equiv (normB q rn wt cty v) vx.
+Proof. exact normB_norm_known_agree. Qed.
+
+Theorem C06_cross_format_known_agree :
+  forall (e : xenv) (vc : vcodec (xe_o e)) (keep : bool) (ep : enc_params) (cmp : compression)
+         (dom : cdom) (ts : list BinPostorder.tree) (p : dec_params) (evs : list wevent) 
+         (revs : list revent),
+       DbCheck.db_coherent (xe_db e) = true ->
+       codec_ext (xe_o e) vc ->
+       quant_agree (ep_quant ep) (xe_o e) ->
+       enc_ready (xe_db e) ep dom ts ->
+       BinRoundTrip.input_ok dom ts ->
+       BinRoundTrip.names_ok dom ->
+       dom_spellings_agree (xe_db e) dom ->
+       (forall i : inst, In i dom -> class_good (xe_db e) (i_class i)) ->
+       dom_values_ok (xe_db e) ep dom = true ->
+       dom_sstrs_ok (xe_db e) dom = true ->
+       dp_lim p = None ->
+       (forall e0 : encoded,
+        encode_chunks (xe_db e) ep dom (List.map BinPostorder.root ts) = Ok e0 ->
+        BinRoundTrip.frame_ok p cmp e0) ->
+       (forall (r : N) (i : inst),
+        In r (flat_map BinPostorder.refs ts) -> find_inst dom r = Some i -> inst_one_spelling (xe_db e) i) ->
+       props_ok dom ts ->
+       XmlRoundTrip.hash_ok e ->
+       known_dom e vc keep dom (List.map BinPostorder.root ts) ->
+       xml_encode e (ebeh_of keep) dom (List.map BinPostorder.root ts) = Ok evs ->
+       channel evs = Ok revs ->
+       exists (b : bytes) (st : ser_state) (outB outX : cdom),
+         encode_file (xe_db e) ep cmp dom (List.map BinPostorder.root ts) = Ok b /\
+         add_instances (xe_db e) ep dom (List.map BinPostorder.root ts) = Ok st /\
+         decode_file (xe_db e) p b = Ok outB /\
+         xml_decode e (dbeh_of keep) revs = Ok outX /\
+         dom_iso
+           (lab_iso (BinRoundTrip.lbl st) (XmlRoundTrip.label (flat_map BinPostorder.refs ts))
+              (flat_map BinPostorder.refs ts)) outB outX /\
+         (forall (r : N) (i : inst),
+          In r (flat_map BinPostorder.refs ts) ->
+          find_inst dom r = Some i ->
+          exists (iB iX : inst) (ti : type_info),
+            In (i_class i, ti) (ss_types st) /\
+            find_inst outB (BinRoundTrip.lbl st r) = Some iB /\
+            find_inst outX (XmlRoundTrip.label (flat_map BinPostorder.refs ts) r) = Some iX /\
+            i_class iB = i_class i /\
+            i_class iX = i_class i /\
+            i_name iB = i_name i /\
+            i_name iX = i_name i /\
+            props_agree_known e p st (flat_map BinPostorder.refs ts) i iB iX /\
+            (inst_in_scope e i ->
+             xml_keys_in_binary iB iX /\ binary_only_defaults (xe_db e) ep p st ti i iB iX)).
+Proof. exact cross_format_known_agree. Qed.
+
+Theorem C06_cross_format_known_agree_bundled :
+  forall (e : xenv) (vc : vcodec (xe_o e)) (keep : bool) (ep : enc_params) (cmp : compression)
+         (dom : cdom) (ts : list BinPostorder.tree) (p : dec_params) (evs : list wevent) 
+         (revs : list revent),
+       xe_db e = Database.database ->
+       codec_ext (xe_o e) vc ->
+       quant_agree (ep_quant ep) (xe_o e) ->
+       enc_ready Database.database ep dom ts ->
+       BinRoundTrip.input_ok dom ts ->
+       BinRoundTrip.names_ok dom ->
+       (forall (cn n : bytes) (v1 v2 : value),
+        In (n, v1) (class_pairs dom cn) ->
+        In (n, v2) (class_pairs dom cn) ->
+        BinTypeInfoFacts.known_resolve Database.database (string_of_bytes cn) (string_of_bytes n) = Ok None ->
+        vtype v1 = vtype v2) ->
+       dom_values_ok Database.database ep dom = true ->
+       dom_sstrs_ok Database.database dom = true ->
+       dp_lim p = None ->
+       (forall e0 : encoded,
+        encode_chunks Database.database ep dom (List.map BinPostorder.root ts) = Ok e0 ->
+        BinRoundTrip.frame_ok p cmp e0) ->
+       (forall (r : N) (i : inst),
+        In r (flat_map BinPostorder.refs ts) ->
+        find_inst dom r = Some i -> inst_one_spelling Database.database i) ->
+       props_ok dom ts ->
+       XmlRoundTrip.hash_ok e ->
+       db_dom e vc keep bundled_exceptions dom (List.map BinPostorder.root ts) ->
+       xml_encode e (ebeh_of keep) dom (List.map BinPostorder.root ts) = Ok evs ->
+       channel evs = Ok revs ->
+       exists (b : bytes) (st : ser_state) (outB outX : cdom),
+         encode_file Database.database ep cmp dom (List.map BinPostorder.root ts) = Ok b /\
+         add_instances Database.database ep dom (List.map BinPostorder.root ts) = Ok st /\
+         decode_file Database.database p b = Ok outB /\
+         xml_decode e (dbeh_of keep) revs = Ok outX /\
+         dom_iso
+           (lab_iso (BinRoundTrip.lbl st) (XmlRoundTrip.label (flat_map BinPostorder.refs ts))
+              (flat_map BinPostorder.refs ts)) outB outX /\
+         (forall (r : N) (i : inst),
+          In r (flat_map BinPostorder.refs ts) ->
+          find_inst dom r = Some i ->
+          exists (iB iX : inst) (ti : type_info),
+            In (i_class i, ti) (ss_types st) /\
+            find_inst outB (BinRoundTrip.lbl st r) = Some iB /\
+            find_inst outX (XmlRoundTrip.label (flat_map BinPostorder.refs ts) r) = Some iX /\
+            i_class iB = i_class i /\
+            i_class iX = i_class i /\
+            i_name iB = i_name i /\
+            i_name iX = i_name i /\
+            props_agree_known e p st (flat_map BinPostorder.refs ts) i iB iX /\
+            (inst_in_scope e i ->
+             xml_keys_in_binary iB iX /\ binary_only_defaults Database.database ep p st ti i iB iX)).
+Proof. exact cross_format_known_agree_bundled. Qed.
+
+Theorem C06_known_font_differs_refuted :
+  forall (q : f32 -> N) (rn : N -> N) (o : xoracle),
+       from_rbx_type VT_Font = Some WFont /\
+       cell_ok WFont VT_Font (VFont font_empty_cached) = true /\
+       XmlRoundTrip.simple_ok (VFont font_empty_cached) /\
+       normB q rn WFont VT_Font (VFont font_empty_cached) =
+       VFont {| fo_family := B "rbxasset://x"; fo_weight := 400; fo_style := 0; fo_cached := None |} /\
+       norm_known o ext_norm VT_Font VT_Font (VFont font_empty_cached) = Ok (VFont font_empty_cached) /\
+       ~ nan_equiv (normB q rn WFont VT_Font (VFont font_empty_cached)) (VFont font_empty_cached).
+Proof. exact known_font_differs_refuted. Qed.
+
+Theorem C06_known_cframe_differs_refuted :
+  forall (q : f32 -> N) (rn : N -> N) (o : xoracle),
+       from_rbx_type VT_CFrame = Some WCFrame /\
+       cell_ok WCFrame VT_CFrame (VCFrame cf_negzero) = true /\
+       ext_ok (VCFrame cf_negzero) /\
+       normB q rn WCFrame VT_CFrame (VCFrame cf_negzero) =
+       VCFrame {| cf_pos := cf_pos cf_negzero; cf_rot := mat3_identity |} /\
+       norm_known o ext_norm VT_CFrame VT_CFrame (VCFrame cf_negzero) = Ok (VCFrame cf_negzero) /\
+       ~ nan_equiv (VCFrame {| cf_pos := cf_pos cf_negzero; cf_rot := mat3_identity |}) (VCFrame cf_negzero).
+Proof. exact known_cframe_differs_refuted. Qed.
+
+Theorem C06_binary_keys_not_in_xml_refuted :
+  let psB :=
+         [(B "Transparency", VFloat32 XmlCompound2.F32_HALF);
+          (B "Size", VVector3 {| vx := F32_ONE; vy := XmlCompound2.F32_NNAN; vz := F32_ZERO |});
+          (B "Locked", VBool false); (B "Color", VColor3uint8 255 128 0); (B "Anchored", VBool true)] in
+       let psX :=
+         [(B "Size", VVector3 {| vx := F32_ONE; vy := F32_NAN; vz := F32_ZERO |});
+          (B "Transparency", VFloat32 XmlCompound2.F32_HALF); (B "Color", VColor3uint8 255 128 0);
+          (B "Anchored", VBool true)] in
+       (forall k : bytes, bfind k psX <> None -> bfind k psB <> None) /\
+       ~ (forall k : bytes, bfind k psB <> None -> bfind k psX <> None).
+Proof. exact binary_keys_not_in_xml_refuted. Qed.
+
